@@ -15,6 +15,7 @@
 //!   (measured, not proved).
 #[path = "../../c07/src/sut.rs"]
 mod sut;
+mod conc;
 use futures::TryStreamExt;
 use object_store::{ObjectStore, ObjectStoreExt, PutPayload, memory::InMemory, path::Path};
 use std::collections::{BTreeMap, BTreeSet};
@@ -24,6 +25,8 @@ use vh_common::serde_json::json;
 use vh_common::*;
 
 const KEYS: [&str; 6] = ["0", "1", "0/1", "0/2", "2/2/2", "3"];
+/// keys of the interleaving scenarios
+const CONC_KEYS: [&str; 3] = ["0", "1", "2"];
 
 // ------------------------------------------------------------------------------------------
 // helpers
@@ -120,6 +123,9 @@ struct Failure {
 
 #[derive(Default)]
 struct CaseOut {
+    /// the backend after the case (base of the interleaving exploration)
+    backend: Option<InMemory>,
+    flavor: Option<Flavor>,
     lines: Vec<String>,
     failures: Vec<Failure>,
     hits: Vec<String>,
@@ -150,12 +156,29 @@ async fn run_case(ops: &[String]) -> Result<CaseOut, String> {
     out.lines.push("ok".into());
     let mut last_ms = 0i64;
     let keys: Vec<&str> = KEYS.to_vec();
+    let mut tasks: Option<Vec<conc::TaskSpec>> = None;
     for (i, op) in ops.iter().enumerate().skip(1) {
         let w: Vec<&str> = op.split(' ').collect();
         if is_mutating(op) || op == "gc" {
             last_ms = wait_past(last_ms);
         }
         let line = match w.as_slice() {
+            ["tasks", ..] => {
+                tasks = Some(conc::parse_tasks(op).ok_or_else(|| format!("bad tasks line: {op}"))?);
+                "ok".to_string()
+            }
+            ["schedule", ids] => {
+                let ts = tasks.clone().ok_or("schedule without tasks")?;
+                let choices: Vec<usize> = if *ids == "-" { vec![] } else { ids.split(',').map(|s| s.parse().map_err(|_| "schedule id")).collect::<Result<_, _>>()? };
+                let all: Vec<String> = CONC_KEYS.iter().map(|s| s.to_string()).collect();
+                let o = conc::run(fl, su.backend.clone(), &ts, &choices, &all).await;
+                for f in o.failures {
+                    out.failures.push(Failure { key: f.key, what: f.what, expected: f.expected, observed: f.observed, at: i });
+                }
+                out.nontrivial = true;
+                su.reopen();
+                o.line
+            }
             ["reopen"] => {
                 su.reopen();
                 "ok".to_string()
@@ -270,6 +293,8 @@ async fn run_case(ops: &[String]) -> Result<CaseOut, String> {
         }
         out.lines.push(line);
     }
+    out.backend = Some(su.backend.clone());
+    out.flavor = Some(fl);
     Ok(out)
 }
 
@@ -563,7 +588,7 @@ fn main() {
         if r.model.is_some() {
             rep.model_compared += ops.len() as u64 - 1;
             if let Some((what, m, im, at)) = first_disagreement(ops, r) {
-                if shrunk < 3 && model.is_some() {
+                if shrunk < 3 && model.is_some() && !ops.iter().any(|o| o.starts_with("schedule")) {
                     shrunk += 1;
                     let prefix: Vec<String> = ops[..=at].to_vec();
                     let small = shrink(
